@@ -152,10 +152,10 @@ Qed.
 (* ---------- one fragment ---------- *)
 
 Lemma by_type_octs cd : dec_ok cd -> exists fl, by_type cd TOcts = Some (DcOcts, fl) /\ df_constructed fl = true.
-Proof. intros [-> | ->]; eexists; split; vm_compute; reflexivity. Qed.
+Proof. intros [-> | ->]; (eexists; split; [vm_compute; reflexivity | vm_compute; reflexivity]). Qed.
 
 Lemma by_type_bits cd : dec_ok cd -> exists fl, by_type cd TBits = Some (DcBits, fl) /\ df_constructed fl = true.
-Proof. intros [-> | ->]; eexists; split; vm_compute; reflexivity. Qed.
+Proof. intros [-> | ->]; (eexists; split; [vm_compute; reflexivity | vm_compute; reflexivity]). Qed.
 
 (* a primitive OCTET STRING segment, read with the fragment collector in force *)
 Lemma frag_octets cd f piece p ae : dec_ok cd ->
